@@ -203,7 +203,11 @@ package server
 // longer names this parent.
 //@ func (t *Teamserver) LinkRemove(ParentAgent *agent.Agent, LinkAgent *agent.Agent, UpdateLinks bool)
 //@   requires nonnil: t != nil && t.DB != nil && t.DB.db != nil && ParentAgent != nil && LinkAgent != nil && LinkAgent.Info != nil && noNilLinks(ParentAgent)
-//@   modifies LinkAgent.Active, LinkAgent.Reason, ParentAgent.Pivots.Links, elems(ParentAgent.Pivots.Links)
+//@   modifies LinkAgent.Active, LinkAgent.Reason, ParentAgent.Pivots.Links, elems(ParentAgent.Pivots.Links), ghostint(t.DB, "linkdel")
+// C09/C10: whichever way it is called (disconnect or death), the database is asked to delete the row of this pair
+//@   ensures row: ghostint(t.DB, "linkdel") == old(ghostint(t.DB, "linkdel")) + 1
+// ... and the agent whose row is rewritten (now inactive) is the child
+//@   guard-call persist: "AgentUpdate" arg(1) == LinkAgent && !LinkAgent.Active
 //@   guard-call ids: "LinkRemove" arg(1) == int(ParentAgentID) && arg(2) == int(LinkAgentID)
 //@   ensures dead:   LinkAgent.Active == false
 //@   ensures keep:   !UpdateLinks ==> (sameslice(ParentAgent.Pivots.Links, old(ParentAgent.Pivots.Links)) && ParentAgent.Pivots.Links == old(ParentAgent.Pivots.Links))
